@@ -464,12 +464,27 @@ fn network_cut(ds: &PartialDSet, d: usize, edge_mode: bool)
         .into_iter()
         .collect();
 
-    if let Some(&start) = marked.iter()
-        .find(|&&e| !marked.contains(&ds.op(0, e).unwrap()))
-    {
-        Some(cut_pairs_in_order(ds, start, marked, special))
+    // The marked region can enclose pockets that do not contain the sink.
+    // Its boundary then has several loops, of which only the one that
+    // separates the glue face from its partner is a valid cut.
+    let mut starts: Vec<_> = marked.iter().cloned()
+        .filter(|&e| !marked.contains(&ds.op(0, e).unwrap()))
+        .collect();
+    starts.sort();
+
+    starts.iter()
+        .map(|&start| cut_pairs_in_order(ds, start, &marked, &special))
+        .find(|ordered| cut_separates(ds, d, ordered))
+}
+
+
+fn cut_separates(ds: &PartialDSet, d: usize, ordered: &Vec<(usize, usize)>)
+    -> bool
+{
+    if let Some(ds) = cut_along(ds, ordered) {
+        !ds.orbit([0, 1, 2], d).contains(&ds.op(3, d).unwrap())
     } else {
-        None
+        false
     }
 }
 
@@ -477,8 +492,8 @@ fn network_cut(ds: &PartialDSet, d: usize, edge_mode: bool)
 fn cut_pairs_in_order(
     ds: &PartialDSet,
     start: usize,
-    marked: HashSet<usize>,
-    special: HashSet<usize>
+    marked: &HashSet<usize>,
+    special: &HashSet<usize>
 )
     -> Vec<(usize, usize)>
 {
@@ -570,14 +585,13 @@ fn network_edges(
 }
 
 
-fn split_and_glue_attempt(
-    ds: &PartialDSet, glue_chamber: usize, ordered: Vec<(usize, usize)>
-) -> Option<DSetOrEmpty>
+fn cut_along(ds: &PartialDSet, ordered: &Vec<(usize, usize)>)
+    -> Option<PartialDSet>
 {
     let mut ds = as_dset(ds);
     let mut cut_chambers = vec![];
 
-    for (d, e) in ordered {
+    for &(d, e) in ordered {
         if ds.walk(d, [1, 0, 1]) != Some(e) {
             if ds.orbit([0, 1], d).contains(&e) {
                 ds = cut_face(&ds, d, e);
@@ -589,8 +603,15 @@ fn split_and_glue_attempt(
         cut_chambers.push(ds.op(1, e).unwrap());
     }
 
-    ds = cut_tile(&ds, &cut_chambers);
+    Some(cut_tile(&ds, &cut_chambers))
+}
 
+
+fn split_and_glue_attempt(
+    ds: &PartialDSet, glue_chamber: usize, ordered: Vec<(usize, usize)>
+) -> Option<DSetOrEmpty>
+{
+    let ds = cut_along(ds, &ordered)?;
     let junk = ds.orbit([0, 1, 3], glue_chamber);
     collapse(&DSetOrEmpty::DSet(ds), junk, 3)
 }
